@@ -24,7 +24,8 @@ POINTS = ["fe.status.read", "fe.status.write", "mutex.lock.read", "mutex.lock.ca
           "blockq.enq@cond", "blockq.enq@mutex", "mutex.unlock.read", "mutex.unlock.cas1", "mutex.unlock.cas2",
           "wake1.deq", "mutex.clearbit", "wake1.push", "wakeany.deq@empty", "wakeany.deq@nonempty", "wakeany.push",
           "mutex.unlock.read@cb", "mutex.clearbit@cb|mutex.unlock.cas1@cb"]
-SITUATIONS = ["waiter_first", "rewait", "two_callbacks_in_flight", "woken_before_release_done", "plain_lock_blocked"]
+SITUATIONS = ["waiter_first", "rewait", "two_callbacks_in_flight", "woken_before_release_done", "plain_lock_blocked",
+              "remark_same_status_wakes", "wrong_kind_waiters_both_asleep"]
 
 
 # --------------------------------------------------------------------------------------------------
@@ -91,6 +92,50 @@ def gen_case(rng, P=None, C=None, k=None, lockers=None, workers=None, pswitch=No
             "consumers_first": bool(consumers_first)}
 
 
+def gen_baton(rng, k=None, workers=None, pswitch=None, status=None):
+    """baton passing (inside the class 'every wait_and_lock is closed by a mark_and_signal', outside the mailbox
+    class): k peekers wait for the same status t and each RE-MARKS t, so every mark after the first one leaves
+    the status unchanged and must still wake the next waiter.
+      t = 1: a starter publishes an item (fewl 0; set slot v; fems 1), peekers do fewl 1; get slot; add seen 1; fems 1
+      t = 0: a holder flips the status to 1 and, later, back to 0 (fewl 0; fems 1; yield*; fewl 1; fems 0),
+             peekers do fewl 0; add seen 1; fems 0 (those that arrive while the status is 1 queue up on cond[0])"""
+    k = k or rng.rng(2, 4)
+    workers = workers or rng.rng(1, 4)
+    pswitch = pswitch or rng.choice([20, 35, 60, 85])
+    status = rng.below(2) if status is None else status
+    seed = rng.rng(1, 1 << 30)
+    threads, roles = {}, {}
+    v = 100 + rng.rng(1, 50)
+    if status == 1:
+        threads[1] = ["yield"] * rng.rng(0, 2) + ["fewl %s 0" % FE, "set slot %d" % v, "add produced 1", "fems %s 1" % FE]
+        roles[1] = "producer"
+        for t in range(2, k + 2):
+            threads[t], roles[t] = ["fewl %s 1" % FE, "get slot", "add seen 1", "fems %s 1" % FE], "peeker"
+        expect = {"produced": 1, "seen": k, "slot": v}
+        items = [v]
+    else:
+        threads[1] = ["fewl %s 0" % FE, "fems %s 1" % FE] + ["yield"] * rng.rng(1, 3) + ["fewl %s 1" % FE, "fems %s 0" % FE]
+        roles[1] = "holder"
+        for t in range(2, k + 2):
+            threads[t], roles[t] = ["fewl %s 0" % FE, "add seen 1", "fems %s 0" % FE], "peeker"
+        expect = {"seen": k, "slot": -1}
+        items = []
+    tags = sorted(threads)
+    order = list(tags)
+    rng.shuffle(order)
+    if rng.chance(2, 3):      # peekers first: they are asleep together when the status arrives
+        order = [t for t in order if roles[t] == "peeker"] + [t for t in order if roles[t] != "peeker"]
+        if status == 0:       # ... but the holder must flip the status before they look
+            order = [1] + [t for t in order if t != 1]
+    threads = dict(threads)
+    threads[0] = ["create %d" % t for t in order] + ["join %d" % t for t in tags] + ["get %s" % x for x in sorted(expect)]
+    objs = ["%s felock" % FE, "slot var -1", "produced var 0", "consumed var 0", "seen var 0"]
+    text = trace.case_text(workers, seed, objs, threads, pswitch=pswitch)
+    return {"text": text, "family": "baton", "P": 1, "C": k, "items": items, "total": len(items), "lockers": 0,
+            "workers": workers, "pswitch": pswitch, "roles": {str(t): r for t, r in roles.items()},
+            "consumers_first": False, "expect": expect}
+
+
 # --------------------------------------------------------------------------------------------------
 # independent oracle of the property on one trace (no model involved)
 # --------------------------------------------------------------------------------------------------
@@ -129,6 +174,8 @@ def analyse(case, r):
     produced, consumed = [], []
     slot_full = None
     gets = {}
+    roles = case.get("roles", {})
+    both_seen = False
     for idx, e in enumerate(r["events"]):
         T = e.actor
         if e.kind == "E" and e.words and e.words[0] == "cb.enter":
@@ -160,6 +207,9 @@ def analyse(case, r):
             if obj != FE:
                 continue
             s = _snap(e)
+            if not both_seen and s.get("c0q") and s.get("c1q"):
+                both_seen = True
+                st["wrong_kind_waiters_both_asleep"] += 1
             if holder is not None and holder["status"] is not None and not holder["written"] and \
                     s.get("status") != holder["status"]:
                 return ("status became %s while t%d is inside its section entered with status %d (%s)" %
@@ -190,10 +240,14 @@ def analyse(case, r):
                     if holder is None or holder["thread"] != T:
                         return ("t%d writes the status without holding the lock" % T, st)
                     holder["written"] = True
+                    if T in calls:
+                        calls[T]["remark"] = (str(s.get("status")) == val)
                 elif pid == "wakeany.deq":
                     op = calls.get(T, {}).get("op", ["", "", "0"])
                     q = s.get("c%sq" % op[2], [])
                     st["wakeany.deq@" + ("nonempty" if q else "empty")] += 1
+                    if q and calls.get(T, {}).get("remark"):
+                        st["remark_same_status_wakes"] += 1
                 elif pid == "wakeany.push":
                     x = _tag(val)
                     if x is not None and releasing.get(x, 0) > 0:
@@ -242,6 +296,12 @@ def analyse(case, r):
             elif op[0] == "feunlock" and op[1] == FE:
                 if ret != 0:
                     return ("unlock of t%d returned %s" % (T, ret), st)
+            elif op[0] == "get" and op[1] == "slot" and T != 0 and roles.get(str(T)) == "peeker":
+                # a peek: inside a section entered with status 1, the item in the slot, which stays there
+                if holder is None or holder["thread"] != T or holder["status"] != 1:
+                    return ("t%d looks at the item without being inside a section entered with status 1" % T, st)
+                if ret is None or ret != slot_full:
+                    return ("t%d saw %s in the slot, which holds %s" % (T, ret, slot_full), st)
             elif op[0] == "get" and op[1] == "slot" and T != 0:
                 # a take: inside a section entered with status 1; the value must have been produced and not consumed before
                 if holder is None or holder["thread"] != T or holder["status"] != 1:
@@ -259,12 +319,12 @@ def analyse(case, r):
                 gets[op[1]] = ret
     if sorted(produced) != sorted(case["items"]):
         return ("produced items %s differ from the program's %s" % (sorted(produced), case["items"]), st)
-    if sorted(consumed) != sorted(produced):
+    if case.get("family", "mailbox") == "mailbox" and sorted(consumed) != sorted(produced):
         return ("consumed multiset %s differs from produced %s" % (sorted(consumed), sorted(produced)), st)
-    exp = {"produced": case["total"], "consumed": case["total"], "slot": -1}
+    exp = case.get("expect") or {"produced": case["total"], "consumed": case["total"], "slot": -1}
     for var, x in exp.items():
         if gets.get(var) != x:
-            return ("final %s = %s, expected %d (a section was not exclusive or an item was lost)" % (var, gets.get(var), x), st)
+            return ("final %s = %s, expected %d (a section was not exclusive, an item was lost or a waiter was skipped)" % (var, gets.get(var), x), st)
     return (None, st)
 
 
@@ -289,7 +349,7 @@ def check_mark(T, t, ev):
         if nxt is not None and nxt[1] == "wakeany.push":
             who = _tag(nxt[2])
             return "mark_and_signal(%d) of t%d woke t%s although nobody waits for %d%s" % (
-                t, T, who, t, " (it waits for %d)" % (1 - t) if who in other else "")
+                t, T, who, t, " (it is in cond[%d])" % (1 - t) if who in other else "")
     # the release: a bit-clearing step somewhere in the call
     cleared = [x for x in ev if x[1] == "mutex.clearbit" or (x[1] == "mutex.unlock.cas1" and x[3].get("state") == 1)]
     if not cleared:
@@ -362,13 +422,14 @@ def reseed(ctx, c):
     return dict(c, text=t)
 
 
-NEED = [p for p in POINTS] + ["waiter_first", "rewait", "plain_lock_blocked", "fewl_returns", "fems_calls"]
+NEED = [p for p in POINTS] + ["waiter_first", "rewait", "plain_lock_blocked", "fewl_returns", "fems_calls",
+                                "remark_same_status_wakes", "wrong_kind_waiters_both_asleep"]
 
 
 def run(ctx):
     broken, log = ctx.prove("Properties_C09.v", "Properties_C09")
     exe, drv = build(ctx)
-    n = 200 if not ctx.thorough else 2500
+    n = 160 if not ctx.thorough else 2000
     corpus = load_corpus()
     cases = list(corpus)
     cases += [gen_case(ctx.rng) for _ in range(n)]
@@ -377,11 +438,16 @@ def run(ctx):
                        consumers_first=True) for _ in range(n // 4)]
     cases += [gen_case(ctx.rng, P=ctx.rng.rng(2, 3), C=ctx.rng.rng(2, 3), lockers=2, workers=ctx.rng.rng(2, 4), pswitch=85)
               for _ in range(n // 8)]
+    # baton passing: >= 2 waiters for the same status, every mark after the first re-marks the unchanged status
+    cases += [gen_baton(ctx.rng) for _ in range(n // 5)]
+    # >= 2 producers with >= 2 consumers, consumers first: waiters of both kinds asleep at the same time
+    cases += [gen_case(ctx.rng, P=ctx.rng.rng(2, 3), C=ctx.rng.rng(2, 3), k=2, lockers=0, workers=ctx.rng.rng(2, 4),
+                       pswitch=ctx.rng.choice([60, 85]), consumers_first=True) for _ in range(n // 10)]
     results, fails, mism, stats = judge(ctx, cases, exe, drv)
     missing = [p for p in NEED if not stats.get(p)]
     dist = {}
     for c in cases:
-        for k in ("PxC:%dx%d" % (c["P"], c["C"]), "workers:%d" % c["workers"], "pswitch:%d" % c["pswitch"],
+        for k in ("family:%s" % c.get("family", "mailbox"), "PxC:%dx%d" % (c["P"], c["C"]), "workers:%d" % c["workers"], "pswitch:%d" % c["pswitch"],
                   "lockers:%d" % c["lockers"], "items:%d" % c["total"], "consumers_first:%s" % c.get("consumers_first")):
             dist[k] = dist.get(k, 0) + 1
     verd = {}
@@ -410,7 +476,8 @@ def run(ctx):
         for _, _, m in fails:
             k = m.split("(")[0][:60]
             cats[k] = cats.get(k, 0) + 1
-        c, r, msg = fails[0]
+        dead = [f for f in fails if "sleeps forever" in f[2]]      # prefer a run that actually hangs as the witness
+        c, r, msg = (dead or fails)[0]
         ctx.violation("oracle", msg, {"case": c, "observed": {"verdict": r["verdict"], "model": r["model"], "trace": r["trace_path"]},
                                       "expected": "property C09 (see analyse() in tools/props/c09.py)", "level": "library",
                                       "failing_runs": len(fails), "failure_categories": cats,
@@ -420,7 +487,8 @@ def run(ctx):
         base = [c for c, _, _ in mism[:8]] or cases[:8]
         extra = [reseed(ctx, c) for c in base for _ in range(12)]
         extra += [gen_case(ctx.rng, C=ctx.rng.rng(2, 3), pswitch=ctx.rng.choice([60, 85, 90]), workers=ctx.rng.rng(2, 4),
-                           consumers_first=ctx.rng.chance(1, 2)) for _ in range(250)]
+                           consumers_first=ctx.rng.chance(1, 2)) for _ in range(200)]
+        extra += [gen_baton(ctx.rng) for _ in range(50)]
         _, f2, _, _ = judge(ctx, extra, exe, drv)
         ctx.cov["correspondence"]["search_runs"] = len(extra)
         if f2:
